@@ -152,7 +152,7 @@ def SpendableSf (T : Kind → Id → Prop) (ms : Mid) (e : SfElem) : Prop :=
   T Kind.sf e.id ∧
   match ms.sfDiff? e.id with
   | none => e ∈ ms.base.sf
-  | some d => d.spent = false ∧ d.e.value = e.value
+  | some d => d.spent = false ∧ d.e = e
 
 theorem SpendableSf.agree {T ms ms' e} {P : Id → Prop} (h : SpendableSf T ms e) (ha : Agree ms ms' P) (hp : ¬ P e.id) :
     SpendableSf T ms' e := by
@@ -220,7 +220,7 @@ theorem spendSf_spec {T} {ms : Mid} (hc : Ctx T ms.base) (hI : Inv T ms) {e : Sf
     | some d =>
       rw [hv] at hm
       have := putSf_tot_found hI.struct hc.disj hT f hfid hv
-      have hd : sfDv d = e.value := by unfold sfDv; rw [hm.1]; exact hm.2
+      have hd : sfDv d = e.value := by unfold sfDv; rw [hm.1, hm.2]; rfl
       omega
 
 -- ------------------------------------------------------------------ v2 contracts
